@@ -228,6 +228,7 @@ func H_step() {
 		e.preOwnCommit, e.preOwnPreCommit, e.preOwnPrep = d.CommitPayloads[d.MyIndex], d.PreCommitPayloads[d.MyIndex], d.PreparationPayloads[d.MyIndex]
 	}
 	pre := vTakeSnap(e)
+	e.preWatch = d.Context.WatchOnly()
 	var msg *vPayload
 	cls := vParam("cls")
 	e.cls = cls
@@ -281,6 +282,7 @@ func H_step() {
 		if cls == 8 {
 			vAssume(th != d.BlockIndex || tv != d.ViewNumber)
 		}
+		e.timeoutCurrent = th == d.BlockIndex && tv == d.ViewNumber
 		d.OnTimeout(th, tv)
 	case api == apiTransaction:
 		txh := vhash(vU64("tx.hash"))
@@ -395,6 +397,103 @@ func vpStepObligations(e *vEnv, pre *vSnap, msg *vPayload) {
 				}
 			}
 			vAssert("C12.O2.answered", answered)
+		}
+	}
+	if e.want("C09") {
+		nRM, nCV, nRR, nPReq := 0, 0, 0, 0
+		for _, ev := range e.log {
+			if ev.kind == evBroadcast {
+				switch ev.typ {
+				case RecoveryMessageType:
+					nRM++
+				case ChangeViewType:
+					nCV++
+				case RecoveryRequestType:
+					nRR++
+				case PrepareRequestType:
+					nPReq++
+				}
+			}
+		}
+		// L1: a timeout of the current epoch on an undecided validator never leaves it idle
+		if e.api == apiTimeout && e.timeoutCurrent && !e.preWatch && !e.preBlockProcessed {
+			vCover("C09.L1.timeout")
+			vAssert("C09.L1.acts", nRM+nCV+nRR+nPReq > 0 || e.nSubscribe > pre.nSubscribe)
+			vAssert("C09.L1.rearmed", e.nTimerReset > pre.nTimerReset || d.blockProcessed)
+			if e.preOwnCommit != nil || e.preOwnPreCommit != nil {
+				vAssert("C09.L1.resend", nRM > 0 && nCV == 0)
+			}
+		}
+		// L2: exactly the F+1 validators following the sender (or any committed node) answer
+		isReq := false
+		if msg != nil && msg.height == pre.height && int(msg.vidx) < e.n {
+			if e.api == apiRecoveryRequest && msg.view <= pre.view {
+				isReq = true
+			}
+			if e.api == apiChangeView && msg.newView <= pre.view && !e.preBlockProcessed {
+				isReq = true // a ChangeView for a view the node is already in counts as a recovery request
+			}
+		}
+		if isReq {
+			vCover("C09.L2.request")
+			committed := e.preOwnCommit != nil || e.preOwnPreCommit != nil && d.isAntiMEVExtensionEnabled()
+			inRange := false
+			if e.my >= 0 {
+				k := (e.my - int(msg.vidx) - 1 + 2*e.n) % e.n
+				inRange = k <= d.F()
+			}
+			should := !e.preWatch && (committed || inRange)
+			vAssert("C09.L2.responders", (nRM > 0) == should)
+			vAssert("C09.L2.once", nRM <= 1)
+		}
+	}
+	if e.want("C16") {
+		nCV, nPReq, nAny := 0, 0, 0
+		for _, ev := range e.log {
+			if ev.kind == evBroadcast {
+				nAny++
+				if ev.typ == ChangeViewType {
+					nCV++
+				}
+				if ev.typ == PrepareRequestType {
+					nPReq++
+				}
+			}
+		}
+		if !e.maxCfg {
+			// O4: the subscription callback is used only when the extension is configured
+			vAssert("C16.O4.nosubscribe", e.nSubscribe == 0 && !d.txSubscriptionOn)
+		} else if !e.preWatch && !e.preBlockProcessed && pre.view == 0 && e.preOwnCommit == nil && e.preOwnPreCommit == nil {
+			expiry := e.api == apiTimeout && e.timeoutCurrent
+			notify := e.api == apiNewTransaction && pre.txsub
+			primaryIdle := e.my >= 0 && uint(e.my) == pre.primary && !e.preHasReq
+			backup := e.my >= 0 && uint(e.my) != pre.primary
+			if primaryIdle && expiry && !pre.txsub {
+				if len(e.pool) == 0 {
+					// O1: empty pool: no proposal yet, subscribe, wait for the rest of the maximum interval
+					vCover("C16.O1.defer")
+					vAssert("C16.O1.defer", nAny == 0 && e.nSubscribe == pre.nSubscribe+1 && d.txSubscriptionOn && e.armed && e.td == d.maxTimePerBlock-d.timePerBlock && e.nTimerReset == pre.nTimerReset+1)
+				} else {
+					vAssert("C16.O1.propose", nPReq == 1 && !d.txSubscriptionOn)
+				}
+			}
+			if primaryIdle && (expiry && pre.txsub || notify) {
+				// second expiry or a new-transaction notification: the proposal is made in this call
+				vCover("C16.O1.forced")
+				vAssert("C16.O1.forced", nPReq == 1 && !d.txSubscriptionOn)
+			}
+			if backup && expiry && !pre.txsub && len(e.pool) == 0 {
+				// O2: an idle chain is no reason for a view change
+				vCover("C16.O2.defer")
+				vAssert("C16.O2.defer", nAny == 0 && e.nSubscribe == pre.nSubscribe+1 && d.txSubscriptionOn && e.armed && e.td == d.maxTimePerBlock<<1-d.timePerBlock<<1 && e.td >= 0)
+			}
+			if backup && notify {
+				vCover("C16.O2.notify")
+				vAssert("C16.O2.notify", nAny == 0 && !d.txSubscriptionOn && e.armed && e.td == d.timePerBlock<<1 && d.ViewNumber == 0)
+			}
+			if e.api == apiNewTransaction && !pre.txsub {
+				vAssert("C16.O2.ignored", nAny == 0 && vpUnchanged(pre, e) && vpNoEffects(pre, e))
+			}
 		}
 	}
 	if e.want("C10") && !d.Context.WatchOnly() && !d.blockProcessed {
